@@ -193,8 +193,9 @@ def scenarios(rng: random.Random, tier: str):
     ]
     for i in range(250 if tier == "quick" else 5000):
         cfgn = rng.choice(["two", "out", "basic", "rq"])
-        evs = ["start " + ",".join(rng.choice(["ok", "inp", "fail"]) for _ in range(2))]
-        nc = 2 if cfgn == "out" else 0
+        cfg_line_ = nodegen.CONFIGS[cfgn] if rng.random() < 0.7 else nodegen.random_config(rng)
+        evs = ["start " + ",".join(rng.choice(["ok", "inp", "fail"]) for _ in range(3))]
+        nc = nodegen.dials_at_start(cfg_line_)
         for _ in range(8 if tier == "quick" else 12):
             c = rng.randrange(0, max(1, nc + 1))
             e = rng.choice(alphabet(c))
@@ -202,7 +203,7 @@ def scenarios(rng: random.Random, tier: str):
                 nc += 1
             evs.append(e)
         evs.append("tick")
-        out.append(nodegen.CONFIGS[cfgn] + " | " + " | ".join(evs))
+        out.append(cfg_line_ + " | " + " | ".join(evs))
     return out
 
 
